@@ -132,29 +132,47 @@ Definition finished (b : bk) : bk :=
 
 Definition is_file (e : option entry) : bool :=
   match e with Some (KFile, _) => true | _ => false end.
+Definition is_dir (e : option entry) : bool :=
+  match e with Some (KDir, _) => true | _ => false end.
 
-Definition step (c : config) (f : fs) (b : bk) (o : op) : res (fs * bk) :=
+(* the effect of one operation on the file system *)
+Inductive eff :=
+| ENone
+| ESet (p : path) (e : entry)
+| EDel (p : path)
+| EMove (p q : path) (e : entry).
+
+Definition apply (e : eff) (f : fs) : fs :=
+  match e with
+  | ENone => f
+  | ESet p x => set p x f
+  | EDel p => remove p f
+  | EMove p q x => set q x (remove p f)
+  end.
+
+(* decide: is the operation allowed, what does it do, how does the book-keeping change *)
+Definition decide (c : config) (f : fs) (b : bk) (o : op) : res (eff * bk) :=
   if b_done b then Err 8 else
   match o with
   | OpenR p =>
       if mem p (c_inputs c) || mem p (b_created b) then
-        if is_file (lookup f p) then Ok (f, b) else Err 4
+        if is_file (lookup f p) then Ok (ENone, b) else Err 4
       else Err 1
   | OpenW p cid =>
       if mem p (b_created b) || wq c p then
-        if is_file (lookup f p) then Ok (set p (KFile, cid) f, b) else Err 4
+        if is_file (lookup f p) then Ok (ESet p (KFile, cid), b) else Err 4
       else Err 2
   | Create p trunc cid =>
       if mem p (b_created b) then
-        if is_file (lookup f p) then Ok (set p (KFile, cid) f, b) else Err 4
+        if is_file (lookup f p) then Ok (ESet p (KFile, cid), b) else Err 4
       else if mem p (c_outputs c) then
         if trunc || mem p (b_owned b) then
-          Ok (set p (KFile, cid) f,
+          Ok (ESet p (KFile, cid),
               with_owned (with_created b (add p (b_created b))) (add p (b_owned b)))
         else Err 11
       else if creatable c b p then
         match lookup f p with
-        | None => Ok (set p (KFile, cid) f, with_created b (add p (b_created b)))
+        | None => Ok (ESet p (KFile, cid), with_created b (add p (b_created b)))
         | Some _ => Err 3
         end
       else Err 3
@@ -162,41 +180,38 @@ Definition step (c : config) (f : fs) (b : bk) (o : op) : res (fs * bk) :=
       if mem p (c_outputs c) then Err 3
       else if creatable c b p then
         match lookup f p with
-        | None => Ok (set p (KDir, 0) f,
+        | None => Ok (ESet p (KDir, 0),
                       with_dirs (with_created b (add p (b_created b))) (add p (b_dirs b)))
         | Some _ => Err 3
         end
       else Err 3
   | Unlink p =>
       if mem p (b_created b) then
-        if is_file (lookup f p) then Ok (remove p f, with_created b (del p (b_created b)))
+        if is_file (lookup f p) then Ok (EDel p, with_created b (del p (b_created b)))
         else Err 4
       else Err 6
   | Rmdir p =>
       if mem p (b_dirs b) then
-        match lookup f p with
-        | Some (KDir, _) =>
-            if has_child f p then Err 4
-            else Ok (remove p f, with_dirs (with_created b (del p (b_created b))) (del p (b_dirs b)))
-        | _ => Err 4
-        end
+        if is_dir (lookup f p) then
+          if has_child f p then Err 4
+          else Ok (EDel p, with_dirs (with_created b (del p (b_created b))) (del p (b_dirs b)))
+        else Err 4
       else Err 6
   | Rename p q =>
       if mem p (b_created b) then
         match lookup f p with
         | Some (KFile, cid) =>
-            if path_eqb p q then Ok (f, b)
+            if path_eqb p q then Ok (ENone, b)
             else if mem q (b_created b) then
               if is_file (lookup f q) then
-                Ok (set q (KFile, cid) (remove p f), with_created b (del p (b_created b)))
+                Ok (EMove p q (KFile, cid), with_created b (del p (b_created b)))
               else Err 4
             else if mem q (c_outputs c) then
-              Ok (set q (KFile, cid) (remove p f),
+              Ok (EMove p q (KFile, cid),
                   with_owned (with_created b (add q (del p (b_created b)))) (add q (b_owned b)))
             else if creatable c b q then
               match lookup f q with
-              | None => Ok (set q (KFile, cid) (remove p f),
-                            with_created b (add q (del p (b_created b))))
+              | None => Ok (EMove p q (KFile, cid), with_created b (add q (del p (b_created b))))
               | Some _ => Err 3
               end
             else Err 3
@@ -205,12 +220,18 @@ Definition step (c : config) (f : fs) (b : bk) (o : op) : res (fs * bk) :=
         end
       else Err 6
   | ListDir p =>
-      if mem p (b_dirs b) then Ok (f, b) else Err 5
+      if mem p (b_dirs b) then Ok (ENone, b) else Err 5
   | Return ok =>
       if ok || c_strict c then
         if forallb (fun p => negb (under (c_scratch c) p)) (b_created b ++ b_dirs b)
-        then Ok (f, finished b) else Err 7
-      else Ok (f, finished b)
+        then Ok (ENone, finished b) else Err 7
+      else Ok (ENone, finished b)
+  end.
+
+Definition step (c : config) (f : fs) (b : bk) (o : op) : res (fs * bk) :=
+  match decide c f b o with
+  | Ok (e, b') => Ok (apply e f, b')
+  | Err code => Err code
   end.
 
 Inductive result := Accepted (f : fs) | Rejected (i : nat) (code : Z).
@@ -225,6 +246,16 @@ Fixpoint run (c : config) (f : fs) (b : bk) (t : list op) (i : nat) : result :=
   end.
 
 Definition accept (c : config) (f : fs) (t : list op) : result := run c f bk0 t 0.
+
+(* the same fold without the position counter, keeping the final book-keeping *)
+Fixpoint exec (c : config) (f : fs) (b : bk) (t : list op) : res (fs * bk) :=
+  match t with
+  | [] => Ok (f, b)
+  | o :: t' => match step c f b o with
+               | Ok (f', b') => exec c f' b' t'
+               | Err e => Err e
+               end
+  end.
 
 (* names this trace makes directly in the scratch root *)
 Definition top_name (c : config) (p : path) : list Z :=
